@@ -20,7 +20,7 @@ namespace GeographicLib {
     , _e2m(Math::sq(1 - _f))    // 1 - _e2
     , _e2a(fabs(_e2))
     , _e4a(Math::sq(_e2))
-    , _maxrad(2 * _a / numeric_limits<real>::epsilon())
+    , _maxrad(2 * fmax(_a, _a * (1 - _f)) / numeric_limits<real>::epsilon())
   {
     if (!(isfinite(_a) && _a > 0))
       throw GeographicErr("Equatorial radius is not positive");
